@@ -587,7 +587,7 @@ async fn walk(certs: &Certs, target_is_client: bool, phase: Phase) -> Result<Liv
         let rec = seal(&k, &iv, CT_ALERT, 1, seq, &[1, 0]);
         l.peer().sock.send_to(&rec, l.tgt().addr).await.map_err(|e| e.to_string())?;
         let t = if target_is_client { l.pair.c.dtls.clone() } else { l.pair.s.dtls.clone() };
-        if !wait_until(&tr, SETUP_LIMIT, || state_name(&t.get_state()) == "Closed").await {
+        if !wait_until(&tr, Duration::from_secs(6), || state_name(&t.get_state()) == "Closed").await {
             return Err("authentic close_notify did not close the target".into());
         }
     }
@@ -1185,6 +1185,9 @@ async fn run_inject(edges_path: &str, out_path: &str) {
     }
     let (mut n_edges, mut n_div, mut n_pairs, mut n_tool, mut n_unreal) = (0u64, 0u64, 0u64, 0u64, 0u64);
     let mut max_acc = 0u64;
+    // (role, start phase) combinations whose set-up failed three times: every later group starting there is
+    // skipped at once (a tool error, never a verdict)
+    let mut broken_starts: HashMap<(String, String), String> = HashMap::new();
     let mut observed: HashMap<String, u64> = HashMap::new();
     for (_, idxs) in groups {
         let first = &edges[idxs[0]];
@@ -1195,7 +1198,10 @@ async fn run_inject(edges_path: &str, out_path: &str) {
         let phase = phase_of(&phase_s);
         let mut live: Option<Live> = None;
         let mut estab_failures = 0;
-        let mut group_dead: Option<Value> = None;
+        let start_key = (role.clone(), pre.first().and_then(|s| s["to"].as_str()).unwrap_or("").to_string());
+        let mut group_dead: Option<Value> = broken_starts
+            .get(&start_key)
+            .map(|err| json!({"type": "tool", "error": format!("group setup failed: {err}"), "role": role, "phase": phase_s}));
         for i in idxs {
             let e = &edges[i];
             let act = &e["act"];
@@ -1235,6 +1241,9 @@ async fn run_inject(edges_path: &str, out_path: &str) {
                                 continue;
                             }
                             // fail fast: the whole group cannot be set up
+                            if pre.len() == 1 || err.contains("close_notify") || err.contains("timed out") {
+                                broken_starts.insert(start_key.clone(), err.clone());
+                            }
                             group_dead = Some(json!({"type": "tool", "error": format!("group setup failed: {err}"), "role": role, "phase": phase_s}));
                             break json!({"type": "tool", "edge": i, "error": err, "role": role, "phase": phase_s});
                         }
